@@ -58,6 +58,7 @@ pub fn fv_big(v: &Value) -> BigUint {
             r.fill_bytes(&mut b);
             BigUint::from_bytes_le(&b) % &p
         }
+        "add" => fv_big(&v["x"]) + fv_big(&v["y"]),
         k => panic!("unknown field descriptor {k}"),
     }
 }
@@ -334,6 +335,7 @@ fn small(v: &Value) -> Value {
     // the integer value of a descriptor when it is small (used by the judge's range classification), else -1
     match v["k"].as_str().unwrap() {
         "int" => json!(v["v"].as_u64().unwrap().min(1 << 30)),
+        "add" => json!(-1),
         "pow2" if v["e"].as_u64().unwrap() <= 29 => {
             json!(((1i64 << v["e"].as_u64().unwrap()) + v["d"].as_i64().unwrap_or(0)))
         }
